@@ -65,6 +65,7 @@ package failsafe
 //@ func (*execution).Cancel
 //@   requires execWellFormed(e) && !held(e.mtx)
 //@   requires [C08.cancel_atomic] e.cancelFunc != nil && uf("ctxof", e.cancelFunc) == e.ctx
+//@   beforecall e.cancelFunc: assert [C08.cancel.context_cancelled_inside_the_critical_section+C15.cancel.context_cancelled_inside_the_critical_section] held(e.mtx)
 //@   let was := ret(e.ctx.Err, 1) != nil
 //@   ensures [C08.cancel.records+C15.cancel.records_latest+C09.cancel_reaches_the_attempt] !was ==> canceled(e.ctx) && cellof(e.canceledResult, *common.PolicyResult) == result
 //@   ensures [C08.cancel.last_result] !was && result != nil ==> e.lastResult == result.Result && e.lastError == result.Error
